@@ -209,6 +209,21 @@ fn vcf_for(columns: &[usize]) -> Vec<u8> {
     vcf_for_n(columns, &PLAIN)
 }
 
+/// As `vcf_for`, with the columns in `odd` carrying haploid / triploid calls: harmless as long as
+/// those samples are not listed.
+fn vcf_for_odd(columns: &[usize], odd: &[usize]) -> Vec<u8> {
+    let mut cs = CallSet::new(columns.len());
+    cs.samples = columns.iter().map(|s| format!("s{s}")).collect();
+    for rec in 0..6 {
+        let gts: Vec<String> = columns
+            .iter()
+            .map(|&s| if odd.contains(&s) { ["0", "1/0/1", "1", "0|0|0"][(rec + s) % 4].to_string() } else { [Cls::G0, Cls::G1, Cls::G2][COLS[s][rec]].spell(rec + s).to_string() })
+            .collect();
+        cs.push_gts(&gts);
+    }
+    to_vcf(&cs).0
+}
+
 fn vcf_for_n(columns: &[usize], nm: &Naming) -> Vec<u8> {
     let mut cs = CallSet::new(columns.len());
     cs.samples = columns.iter().map(|s| nm.names[*s].to_string()).collect();
@@ -257,7 +272,7 @@ fn eval_cli_n(list: &[Entry], columns: &[usize], nm: &Naming, scratch: &Scratch)
             ("mixed-endings", mixed),
         ];
         // the samples file need not be a regular file: a named pipe (`-S <(...)`) has the same content
-        {
+        if list.iter().map(|e| e.0 + 2 * e.1).sum::<usize>() % 4 == 0 {
             let c = crate::cli::run_sfs_fifo_at(&["create", "--samples-file", "{FIFO}"], lf.as_bytes(), ".samples", Stdin::Bytes(&vcf), scratch);
             if c.stdout != a.stdout || c.code != a.code {
                 v.push((
@@ -516,10 +531,40 @@ pub fn run(tier: Tier) -> i32 {
         name: "cli: --samples and --samples-file".into(),
         evaluations: 7 * cj.len() as u64,
         nontrivial: 2 * cj.iter().filter(|c| nontrivial(&c.0)).count() as u64,
-        note: "every list of 3 samples (and a slice / all of 4) as --samples and as --samples-file (LF, CRLF, no final newline, CRLF without final newline, mixed endings; a named pipe), input columns permuted".into(),
+        note: "every list of 3 samples (and a slice / all of 4) as --samples and as --samples-file (LF, CRLF, no final newline, CRLF without final newline, mixed endings; for a quarter of the lists also from a named pipe), input columns permuted".into(),
         exhaustive: true,
         extra: vec![],
     });
+    // unlisted columns with non-diploid calls (e.g. haploid chrX calls of samples that are not listed)
+    {
+        let sub: Vec<&Vec<Entry>> = lists3.iter().filter(|l| l.len() <= 2).collect();
+        let res = par_map(sub.len(), |i| {
+            let list = sub[i];
+            let listed: Vec<usize> = list.iter().map(|e| e.0).collect();
+            let odd: Vec<usize> = (0..3).filter(|s| !listed.contains(s)).collect();
+            let vcf = vcf_for_odd(&[0, 1, 2], &odd);
+            let o = run_sfs(&["create", "--samples", &list_str(list)], Stdin::Bytes(&vcf), &scratch);
+            match parse_out(&o) {
+                Ok(g) if g == reference(list) => None,
+                other => Some((
+                    "C09|cli|unlisted-non-diploid-column-matters".to_string(),
+                    format!("create --samples {} with haploid/triploid calls in the unlisted columns {odd:?}: {other:?}, expected {:?}", list_str(list), reference(list).data),
+                    J::obj([("kind", J::s("c09-odd")), ("samples", J::s(list_str(list)))]),
+                )),
+            }
+        });
+        for v in res.into_iter().flatten() {
+            rep.violation(v.0, v.1, v.2);
+        }
+        rep.part(Part {
+            name: "cli: non-diploid calls in unlisted columns".into(),
+            evaluations: sub.len() as u64,
+            nontrivial: sub.len() as u64,
+            note: "every list of <=2 of 3 samples while the unlisted columns carry haploid and triploid genotypes: only listed samples count".into(),
+            exhaustive: true,
+            extra: vec![],
+        });
+    }
     // spellings of names and labels
     let mut nj: Vec<(usize, usize)> = Vec::new();
     for ni in 1..NAMINGS.len() {
@@ -618,6 +663,15 @@ pub fn replay(case: &J) -> Option<Vec<String>> {
         let a: Vec<&str> = args.iter().map(|s| s.as_str()).collect();
         let o = run_sfs(&a, Stdin::Bytes(&vcf_for(&[0, 1, 2])), &scratch);
         return Some(if o.ok() || !o.stdout.is_empty() || !o.diagnosed_error() { vec![format!("C09|cli|invalid-list-accepted :: {a:?}: {} {:?}", o.status_str(), o.stdout_str())] } else { vec![] });
+    }
+    if kind == "c09-odd" {
+        let spelled = case.get("samples")?.as_str()?.to_string();
+        let list: Vec<Entry> = spelled.split(',').map(|e| { let (s, l) = e.split_once('=').map_or((e, ""), |(a, b)| (a, b)); (s[1..].parse::<usize>().unwrap(), LABELS.iter().position(|x| *x == l).unwrap()) }).collect();
+        let listed: Vec<usize> = list.iter().map(|e| e.0).collect();
+        let odd: Vec<usize> = (0..3).filter(|s| !listed.contains(s)).collect();
+        let scratch = Scratch::new("c09r");
+        let o = run_sfs(&["create", "--samples", &spelled], Stdin::Bytes(&vcf_for_odd(&[0, 1, 2], &odd)), &scratch);
+        return Some(match parse_out(&o) { Ok(g) if g == reference(&list) => vec![], other => vec![format!("C09|cli|unlisted-non-diploid-column-matters :: {other:?}")] });
     }
     if kind != "c09" && kind != "c09-rep" && kind != "c09-conflict" {
         return None;
